@@ -20,7 +20,8 @@ LEVEL = 'proof'
 RULE = ('regex ASTs: every tree of size <= 4 (quick; <= 5 thorough) over the leaves Eps, {a}, {b}, NULL, SIGMA built '
         'with the raw classes Kleene/Concatenation/LogicalOr/LogicalAnd (arguments their constructors reject are '
         'skipped); words: all words over {a,b} of length <= 4 (quick) / <= 5 (thorough); concrete syntax: every string '
-        'of length <= 4 (<= 5 thorough) over the characters a b | * ( ) plus a fixed list exercising + ? . [..] \\ ; '
+        'of length <= 3 and 350 seeded samples of length 4 (thorough: every string <= 5) over the characters a b | * ( ) '
+        'plus a fixed list exercising + ? . [..] \\ ; '
         'distinct non-trivial = distinct (regex, word) pairs with the regex not Eps/NULL and compile() succeeding')
 EXPLANATION = ('Unbounded Coq theorems about the hand model: nullability, Brzozowski derivative (through the smart '
                'constructors), derivative classes (sound, covering SIGMA, pairwise disjoint), DFA construction and '
@@ -38,8 +39,9 @@ ASSUMPTIONS = ['symbols are integers (code points); the automaton alphabet is SI
 SRC = ['ppci/lang/tools/regex/regex.py', 'ppci/lang/tools/regex/compiler.py', 'ppci/lang/tools/regex/scanner.py',
        'ppci/lang/tools/regex/parser.py', 'ppci/utils/integer_set.py']
 FUEL = 200
-IMPORTS = ['Model.Regex', 'Model.RegexVal']
+IMPORTS = ['Spec.RegLangSpec', 'Model.Regex', 'Model.RegexVal']
 KF_COMPILE = 'KeyError: error (NULL) state unreachable'
+KF_DIVERGE = 'RecursionError: derivative states grow without bound'
 KF_SCAN = 'scan yields empty tokens forever for a nullable regex'
 
 
@@ -143,11 +145,27 @@ def real_run(im, prog, w):
     return bool(acc[st])
 
 
+def impl_compile(im, r):
+    """compile() under a low recursion limit: for regexes whose derivative set is infinite under the
+    implemented simplifications (e.g. a*a*) the states nest ever deeper and compile() ends in a
+    RecursionError; the low limit makes that happen quickly (the time grows very fast with the depth)"""
+    import sys
+    old = sys.getrecursionlimit()
+    sys.setrecursionlimit(140)
+    try:
+        return im.cp.compile(r), None
+    except RecursionError as ex:
+        return None, ex
+    except Exception as ex:   # noqa: BLE001
+        return None, ex
+    finally:
+        sys.setrecursionlimit(old)
+
+
 def real_runs(im, r, words):
     """list of OkV(bool)/Internal per word, and the compile outcome"""
-    try:
-        prog = im.cp.compile(r)
-    except Exception as ex:   # noqa: BLE001
+    prog, ex = impl_compile(im, r)
+    if ex is not None:
         return None, ex, [Internal for _ in words]
     outs = []
     for w in words:
@@ -198,7 +216,11 @@ def is_known_compile_failure(im, r, ex):
 
 
 def report_compile_failure(ctx, im, r, ex, how):
-    if is_known_compile_failure(im, r, ex):
+    if isinstance(ex, RecursionError):
+        ctx.violation({'fn': 'regex.compile', 'what': KF_DIVERGE, 'args': [how],
+                       'actual': 'RecursionError (ever larger states)', 'expected': 'a DFA',
+                       'how_to_replay': "PYTHONPATH=%s python -c \"from ppci.lang.tools.regex import compile; compile('a*a*')\"" % vlib.REPO})
+    elif is_known_compile_failure(im, r, ex):
         ctx.violation({'fn': 'regex.compile', 'what': KF_COMPILE, 'args': [how],
                        'actual': 'KeyError', 'expected': 'a DFA',
                        'how_to_replay': "PYTHONPATH=%s python -c \"from ppci.lang.tools.regex import compile; compile('.*')\"" % vlib.REPO})
@@ -279,9 +301,8 @@ def oracle_syntax(ctx, im, thorough):
                            'actual': 'exception %s: %s' % (type(ex).__name__, ex), 'key': 'parse',
                            'how_to_replay': "PYTHONPATH=%s python -c \"from ppci.lang.tools.regex import parse; print(parse(%r))\"" % (vlib.REPO, t)})
             continue
-        try:
-            prog = im.cp.compile(expr)
-        except Exception as ex:   # noqa: BLE001
+        prog, ex = impl_compile(im, expr)
+        if ex is not None:
             report_compile_failure(ctx, im, expr, ex, t)
             continue
         for w in words:
@@ -316,10 +337,13 @@ def witness_scan_divergence(ctx, im):
 
 def witness_compile_keyerror(ctx, im):
     r = im.rx.Kleene(im.rx.SIGMA)
-    try:
-        im.cp.compile(r)
-    except Exception as ex:   # noqa: BLE001
+    _prog, ex = impl_compile(im, r)
+    if ex is not None:
         report_compile_failure(ctx, im, r, ex, '.*')
+    a = im.rx.Kleene(im.rx.Symbol('a'))
+    _prog, ex = impl_compile(im, a + a)
+    if ex is not None:
+        report_compile_failure(ctx, im, a + a, ex, 'a*a*')
 
 
 def search(ctx, deep=None):
@@ -363,20 +387,20 @@ def corr_ast(ctx, im, maxsize, maxlen):
             impl1 = (re_pyval(r.nu()), bool(r.nullable()),
                      [re_pyval(r.derivative(c)) for c in (97, 98, 99)],
                      [[tuple(x) for x in k.ranges] for k in r.derivative_classes()])
-            cases.append(('(nu %s, nullable %s, [deriv %s 97; deriv %s 98; deriv %s 99], classes %s)' % ((t,) * 6), impl1))
+            cases.append(('case_regex %s' % t, impl1))
             recs.append(('regex', r))
             # compiler.py / scanner.py level
             prog, ex, outs = real_runs(im, r, words)
             if ex is None:
                 dist['compile_ok'] += 1
-                cases.append(('compile %d %s' % (FUEL, t), OkV(prog_pyval(prog))))
+                cases.append(('case_compile %d %s' % (FUEL, t), OkV(prog_pyval(prog))))
                 if type(r).__name__ != 'Epsilon' and r != im.rx.NULL:
                     nontriv += len(words)
             else:
                 dist['compile_internal'] += 1
-                cases.append(('compile %d %s' % (FUEL, t), Internal))
+                cases.append(('case_compile %d %s' % (FUEL, t), Internal))
             recs.append(('compile', r))
-            cases.append(('run_words %d %s %d' % (FUEL, t, maxlen), outs))
+            cases.append(('case_run %d %s %d' % (FUEL, t, maxlen), outs))
             recs.append(('run', r))
     ctx.cov['stages']['correspondence_ast'] = dist
     ctx.cov['distinct_nontrivial'] += nontriv
@@ -398,8 +422,7 @@ def corr_smart(ctx, im):
     for x in pool:
         for y in pool:
             tx, ty = re_term(x), re_term(y)
-            cases.append(('(concatenate %s %s, logical_or %s %s, logical_and %s %s)' % (tx, ty, tx, ty, tx, ty),
-                          (re_pyval(x + y), re_pyval(x | y), re_pyval(x & y))))
+            cases.append(('case_smart %s %s' % (tx, ty), (re_pyval(x + y), re_pyval(x | y), re_pyval(x & y))))
             recs.append((x, y))
     ctx.cov['stages']['correspondence_smart'] = len(cases)
     bad = ctx.run_cases('smart', IMPORTS, cases)
@@ -429,9 +452,7 @@ def corr_iset(ctx, im):
         impl = ([tuple(r) for r in A.ranges], [tuple(r) for r in (A | B).ranges], [tuple(r) for r in (A & B).ranges],
                 [tuple(r) for r in (A - B).ranges], [x in A for x in probe], bool(A))
         ta, tb = ranges_term(ra), ranges_term(rb)
-        ca, cb = 'mk_iset %s' % ta, 'mk_iset %s' % tb
-        cases.append(('(mk_iset %s, union (%s) (%s), inter (%s) (%s), diff (%s) (%s), map (contains (%s)) %s, nonempty (%s))'
-                      % (ta, ca, cb, ca, cb, ca, cb, ca, '[%s]' % '; '.join(vlib.coq_z(x) for x in probe), ca), impl))
+        cases.append(('case_iset %s %s [%s]' % (ta, tb, '; '.join(vlib.coq_z(x) for x in probe)), impl))
     ctx.cov['stages']['correspondence_iset'] = len(cases)
     bad = ctx.run_cases('iset', IMPORTS, cases)
     if bad:
@@ -446,7 +467,10 @@ PARSER_EXTRA = ['ab|cd', '(ab)*', 'a+', 'a?b', '[0-9]+', '[a-c]x', '[ab]', '[^a]
 def corr_parser(ctx, im, maxlen):
     texts = list(PARSER_EXTRA)
     for k in range(0, maxlen + 1):
-        texts += [''.join(p) for p in itertools.product('ab|*()', repeat=k)]
+        level = [''.join(p) for p in itertools.product('ab|*()', repeat=k)]
+        if ctx.quick() and k >= 4:
+            level = ctx.rng.sample(level, 350)      # quick tier: length 4 is sampled (seeded), <= 3 exhaustive
+        texts += level
     cases, recs = [], []
     dist = {'ok': 0, 'diag': 0, 'internal': 0}
     seen = set()
@@ -456,7 +480,7 @@ def corr_parser(ctx, im, maxlen):
         seen.add(t)
         out = outcome_re(call_impl(im.ps.parse, [t], diag=(ValueError,)))
         dist['ok' if isinstance(out, OkV) else ('diag' if out is Diag else 'internal')] += 1
-        cases.append(('parse %d [%s]' % (FUEL, '; '.join(str(ord(c)) for c in t)), out))
+        cases.append(('case_parse %d [%s]' % (FUEL, '; '.join(str(ord(c)) for c in t)), out))
         recs.append(t)
     ctx.cov['stages']['correspondence_parser'] = dist
     bad = ctx.run_cases('parser', IMPORTS, cases)
@@ -476,7 +500,7 @@ def corr_scan(ctx, im, maxlen):
     cases = []
     for r in pool:
         assert not r.nullable()
-        prog = im.cp.compile(r)
+        prog, _ex = impl_compile(im, r)
         outs = []
         for w in words:
             txt = ''.join(chr(c) for c in w)
@@ -487,7 +511,7 @@ def corr_scan(ctx, im, maxlen):
                 outs.append(Diag)
             except Exception:   # noqa: BLE001
                 outs.append(Internal)
-        cases.append(('scan_words %d %s %d' % (FUEL, re_term(r), maxlen), outs))
+        cases.append(('case_scan %d %s %d' % (FUEL, re_term(r), maxlen), outs))
     ctx.cov['stages']['correspondence_scan'] = {'regexes': len(pool), 'words': len(words)}
     bad = ctx.run_cases('scan', IMPORTS, cases)
     if bad:
@@ -501,12 +525,18 @@ def run(ctx):
     if ok:
         ctx.check_props('Props/C31.v')
         quick = ctx.quick()
-        corr_ast(ctx, im, 4 if quick else 5, 4 if quick else 5)
-        corr_smart(ctx, im)
-        corr_iset(ctx, im)
-        corr_parser(ctx, im, 4 if quick else 5)
-        corr_scan(ctx, im, 4 if quick else 5)
+        import time
+        for name, fn in (('ast', lambda: corr_ast(ctx, im, 4 if quick else 5, 4 if quick else 5)),
+                         ('smart', lambda: corr_smart(ctx, im)), ('iset', lambda: corr_iset(ctx, im)),
+                         ('parser', lambda: corr_parser(ctx, im, 4 if quick else 5)),
+                         ('scan', lambda: corr_scan(ctx, im, 4 if quick else 5))):
+            t = time.time()
+            fn()
+            ctx.cov['stages'].setdefault('wall_s', {})[name] = round(time.time() - t, 1)
+    import time
+    t = time.time()
     search(ctx)
+    ctx.cov['stages'].setdefault('wall_s', {})['search'] = round(time.time() - t, 1)
     ctx.cov['exhaustive'] = False
 
 
